@@ -31,7 +31,120 @@ const (
 	fHoltInf     = "C18-holt-winters-infinite-sample-nan"
 	fAbsentDup   = "C18-absent-label-kept-despite-second-matcher"
 	fMinMaxInit  = "C18-min-max-aggregation-sentinel-start-value"
+	fSelTrailing = "C18-range-selector-trailing-step-lost"
+	fIgnKept     = "C18-ignoring-label-kept-in-result"
+	fFilterOff   = "C18-vector-comparison-filter-with-offset-operand-loses-elements"
 )
+
+// filterWithOffsetOperand: the expression contains a comparison WITHOUT bool between two instant vectors one of whose
+// operands contains a selector with a non-zero offset
+func filterWithOffsetOperand(expr string) bool {
+	e, err := parser.ParseExpr(expr)
+	if err != nil {
+		return false
+	}
+	found := false
+	parser.Inspect(e, func(n parser.Node, _ []parser.Node) error {
+		b, ok := n.(*parser.BinaryExpr)
+		if !ok || !b.Op.IsComparisonOperator() || b.ReturnBool ||
+			b.LHS.Type() != parser.ValueTypeVector || b.RHS.Type() != parser.ValueTypeVector {
+			return nil
+		}
+		for _, side := range []parser.Expr{b.LHS, b.RHS} {
+			parser.Inspect(side, func(m parser.Node, _ []parser.Node) error {
+				if vs, ok := m.(*parser.VectorSelector); ok && vs.OriginalOffset != 0 {
+					found = true
+				}
+				return nil
+			})
+		}
+		return nil
+	})
+	return found
+}
+
+// subsetOf: every series / point of sv is in up with an equal value, and something of up is missing in sv
+func subsetOf(up, sv result) bool {
+	if up.Kind != sv.Kind || sv.Err != "" {
+		return false
+	}
+	um := map[string]map[int64]float64{}
+	nup := 0
+	for _, s := range up.Series {
+		m := map[int64]float64{}
+		for _, p := range s.Pts {
+			m[p.T] = p.V
+			nup++
+		}
+		um[labelKey(s.Labels)] = m
+	}
+	nsv := 0
+	seen := map[string]bool{}
+	for _, s := range sv.Series {
+		k := labelKey(s.Labels)
+		m, ok := um[k]
+		if !ok || seen[k] {
+			return false
+		}
+		seen[k] = true
+		for _, p := range s.Pts {
+			v, ok := m[p.T]
+			if !ok || !feq(v, p.V) {
+				return false
+			}
+			nsv++
+		}
+	}
+	return nsv < nup
+}
+
+// ignoringLabels: the labels listed by ignoring(...) of the vector-vector operators of the expression
+func ignoringLabels(expr string) []string {
+	e, err := parser.ParseExpr(expr)
+	if err != nil {
+		return nil
+	}
+	var out []string
+	parser.Inspect(e, func(n parser.Node, _ []parser.Node) error {
+		if b, ok := n.(*parser.BinaryExpr); ok && b.VectorMatching != nil && !b.VectorMatching.On {
+			out = append(out, b.VectorMatching.MatchingLabels...)
+		}
+		return nil
+	})
+	return out
+}
+
+// extraIgnoredLabels: after deleting the ignoring(...) labels from the server's label sets the two answers are equal,
+// and at least one server series carried such a label
+func extraIgnoredLabels(up, sv result, ign []string) bool {
+	if len(ign) == 0 || sv.Err != "" || up.Kind != sv.Kind {
+		return false
+	}
+	hit := false
+	st := result{Kind: sv.Kind}
+	for _, s := range sv.Series {
+		lb := map[string]string{}
+		for k, v := range s.Labels {
+			drop := false
+			for _, g := range ign {
+				if g == k {
+					drop = true
+				}
+			}
+			if drop {
+				hit = true
+				continue
+			}
+			lb[k] = v
+		}
+		st.Series = append(st.Series, rseries{Labels: lb, Pts: s.Pts})
+	}
+	st.canon()
+	return hit && cmpResults(up, st) == ""
+}
+
+// emptyAnswer: no series at all
+func emptyAnswer(r result) bool { return r.Err == "" && len(r.Series) == 0 }
 
 // hasMinMaxAgg: the expression contains a min / max aggregation operator
 func hasMinMaxAgg(expr string) bool {
@@ -778,7 +891,14 @@ func explainWith(ds *dataset, e *exprCase, mode string, start, lastStep, step in
 		ex.Rules = []string{fAbsentOff}
 		return true, ex, nregex
 	}
-	if rw, hit := absentDupRewrite(e.Expr); hit && sv.Err == "" && mode == "instant" {
+	if mode == "instant" && hasVectorVectorBinop(e.Expr) && maxOffsetUnderAgg(e.Expr) > 0 && emptyAnswer(sv) {
+		// the aggregated operand above an offset selector comes back with the shifted time stamp: nothing pairs
+		if up := evalUp(e.Expr); up.Err == "" && len(up.Series) > 0 {
+			ex.Rules = []string{fOffAgg}
+			return true, ex, nregex
+		}
+	}
+	if rw, hit := absentDupRewrite(e.Expr); hit && sv.Err == "" {
 		// both engines say "absent" (one element); only the derived label set differs the way today's code derives it
 		if orig := evalUp(e.Expr); orig.Err == "" && len(orig.Series) == 1 {
 			if up := evalUp(rw); up.Err == "" && cmpResults(up, sv) == "" {
@@ -826,6 +946,14 @@ func explainWith(ds *dataset, e *exprCase, mode string, start, lastStep, step in
 		ex.Rules = addRule(ex.Rules, fResetsZero)
 		return true, ex, nregex
 	}
+	if hasVectorVectorBinop(e.Expr) && cmpResults(up, sv) != "" && extraIgnoredLabels(up, sv, ignoringLabels(e.Expr)) {
+		ex.Rules = addRule(ex.Rules, fIgnKept)
+		return true, ex, nregex
+	}
+	if allowResets && filterWithOffsetOperand(e.Expr) && cmpResults(up, sv) != "" && subsetOf(up, sv) {
+		ex.Rules = addRule(ex.Rules, fFilterOff)
+		return true, ex, nregex
+	}
 	if hasMinMaxAgg(e.Expr) && cmpResults(up, sv) != "" && sentinelInsteadOf(up, sv) {
 		// min / max start from +-MaxFloat64 instead of the group's first value
 		ex.Rules = addRule(ex.Rules, fMinMaxInit)
@@ -865,6 +993,11 @@ func explainWith(ds *dataset, e *exprCase, mode string, start, lastStep, step in
 	}
 	if mode == "range" && hasMatrixSelector(e.Expr) && cmpResults(up, sv) != "" && trailingLoss(up, sv) {
 		ex.Rules = addRule(ex.Rules, fStepGtRange)
+		return true, ex, nregex
+	}
+	if allowResets && mode == "range" && !hasMatrixSelector(e.Expr) && cmpResults(up, sv) != "" && trailingLoss(up, sv) {
+		// instant-vector selectors in a range query: the last step(s) of some series are lost (layout dependent)
+		ex.Rules = addRule(ex.Rules, fSelTrailing)
 		return true, ex, nregex
 	}
 	if len(ex.Rules) == 0 {
